@@ -30,6 +30,59 @@ def last_of(prev):
               Mentions(Call("split_last", prev)))
 
 
+def constructor_rules(ctx, rule):
+    try:
+        f = ctx.fn(rule, name="try_from_prefixes", self_adt="vdaf::poplar1::Poplar1AggregationParam")
+        g = ctx.guards(f)
+        pf = Arg(1)
+        ctx.require_guard(rule, f, "Eq", Len(pf), Lit(0), desc="prefixes.is_empty() -> Err")
+        ctx.require_variant_guard(rule, f, Call("try_from", Len(pf)), "Err", True, desc="u32::try_from(prefixes.len()) is Err -> Err")
+        item = lambda e: Mentions(Call("next"))(e)
+        e1 = ctx.require_guard(rule, f, "Ne", Len(item), Len(Index(pf, Lit(0))), every_iteration=True,
+                               desc="prefix.len() != prefixes[0].len() -> Err  [every prefix]")
+        if e1 is not None:
+            loop_covers_all(ctx, rule, f, e1, pf, "length loop iterates all prefixes")
+        is_first = lambda ed: ed.cond[0] == "variant" and ed.cond[2] == "None" and ed.cond[3] and ed.cond[1][0] == "phi"
+        e2 = ctx.require_guard(rule, f, "Le", item, Field(Any(), name="0", variant="Some"), every_iteration=True, bypass=is_first,
+                               desc="prefix <= previous prefix -> Err  [every prefix after the first]")
+        if e2 is not None:
+            # the `previous` is updated to the current prefix on every iteration
+            c = e2.cond
+            prevv = c[3] if item(c[2]) else c[2]
+            ph = [x for x in walk(prevv) if isinstance(x, tuple) and x[0] == "phi"]
+            key = "%s:%s:previous-is-updated" % (rule, f.id)
+            good = False
+            if ph:
+                l = ph[0][1]
+                defs = phi_defs(g, l)
+                lp = g.loop_of(e2.block)
+                for (de, dconds, bi) in defs:
+                    if Agg("Option::Some", item)(de) and lp and bi in lp[1]:
+                        latches = [t for (t, hh) in f.body.back_edges() if hh == lp[0]]
+                        if all(f.body.dominates(bi, t) for t in latches):
+                            good = True
+                inits = [de for (de, dc, bi) in defs if Agg("Option::None")(de)]
+                good = good and len(inits) == 1 and len(defs) == 2
+            if good:
+                ctx.ok(rule, key, "previous starts as None and is set to Some(current) on every iteration", loc=f.loc)
+            else:
+                ctx.bad(rule, key, "the compared `previous prefix` is not updated to the current prefix on every iteration", loc=f.loc)
+        ctx.require_try_call(rule, f, Call("ok_or_else", Call("checked_sub", Len(Index(pf, Lit(0))), Lit(1))),
+                             desc="len.checked_sub(1).ok_or_else(..)")
+        ctx.require_try_call(rule, f, Call("map_err", Call("try_from", Try(Mentions(Call("checked_sub"))))), desc="u16::try_from(level).map_err(..)")
+        # payload
+        acc = g.accept_defs(("err",))
+        key = "%s:%s:payload" % (rule, f.id)
+        if len(acc) == 1 and Agg("Result::Ok", Agg("Poplar1AggregationParam", Try(Mentions(Call("try_from", Try(Mentions(Call("checked_sub")))))), pf))(acc[0].expr):
+            ctx.ok(rule, key, "Ok(Self { level: u16::try_from(len - 1)?, prefixes })", loc=f.loc)
+        else:
+            ctx.bad(rule, key, "constructor result is not {level = len-1 (u16), prefixes = the argument}: %s" % [fmt(a.expr)[:160] for a in acc], loc=f.loc)
+    except Skip:
+        pass
+    ctx.floor(rule, 9)
+
+
+
 def run(ctx):
     rule = "R-C20.V.poplar1"
     try:
@@ -117,56 +170,7 @@ def run(ctx):
             pass
     ctx.floor(rule, 2)
 
-    rule = "R-C20.G.constructor"
-    try:
-        f = ctx.fn(rule, name="try_from_prefixes", self_adt="vdaf::poplar1::Poplar1AggregationParam")
-        g = ctx.guards(f)
-        pf = Arg(1)
-        ctx.require_guard(rule, f, "Eq", Len(pf), Lit(0), desc="prefixes.is_empty() -> Err")
-        ctx.require_variant_guard(rule, f, Call("try_from", Len(pf)), "Err", True, desc="u32::try_from(prefixes.len()) is Err -> Err")
-        item = lambda e: Mentions(Call("next"))(e)
-        e1 = ctx.require_guard(rule, f, "Ne", Len(item), Len(Index(pf, Lit(0))), every_iteration=True,
-                               desc="prefix.len() != prefixes[0].len() -> Err  [every prefix]")
-        if e1 is not None:
-            loop_covers_all(ctx, rule, f, e1, pf, "length loop iterates all prefixes")
-        is_first = lambda ed: ed.cond[0] == "variant" and ed.cond[2] == "None" and ed.cond[3] and ed.cond[1][0] == "phi"
-        e2 = ctx.require_guard(rule, f, "Le", item, Field(Any(), name="0", variant="Some"), every_iteration=True, bypass=is_first,
-                               desc="prefix <= previous prefix -> Err  [every prefix after the first]")
-        if e2 is not None:
-            # the `previous` is updated to the current prefix on every iteration
-            c = e2.cond
-            prevv = c[3] if item(c[2]) else c[2]
-            ph = [x for x in walk(prevv) if isinstance(x, tuple) and x[0] == "phi"]
-            key = "%s:%s:previous-is-updated" % (rule, f.id)
-            good = False
-            if ph:
-                l = ph[0][1]
-                defs = phi_defs(g, l)
-                lp = g.loop_of(e2.block)
-                for (de, dconds, bi) in defs:
-                    if Agg("Option::Some", item)(de) and lp and bi in lp[1]:
-                        latches = [t for (t, hh) in f.body.back_edges() if hh == lp[0]]
-                        if all(f.body.dominates(bi, t) for t in latches):
-                            good = True
-                inits = [de for (de, dc, bi) in defs if Agg("Option::None")(de)]
-                good = good and len(inits) == 1 and len(defs) == 2
-            if good:
-                ctx.ok(rule, key, "previous starts as None and is set to Some(current) on every iteration", loc=f.loc)
-            else:
-                ctx.bad(rule, key, "the compared `previous prefix` is not updated to the current prefix on every iteration", loc=f.loc)
-        ctx.require_try_call(rule, f, Call("ok_or_else", Call("checked_sub", Len(Index(pf, Lit(0))), Lit(1))),
-                             desc="len.checked_sub(1).ok_or_else(..)")
-        ctx.require_try_call(rule, f, Call("map_err", Call("try_from", Try(Mentions(Call("checked_sub"))))), desc="u16::try_from(level).map_err(..)")
-        # payload
-        acc = g.accept_defs(("err",))
-        key = "%s:%s:payload" % (rule, f.id)
-        if len(acc) == 1 and Agg("Result::Ok", Agg("Poplar1AggregationParam", Try(Mentions(Call("try_from", Try(Mentions(Call("checked_sub")))))), pf))(acc[0].expr):
-            ctx.ok(rule, key, "Ok(Self { level: u16::try_from(len - 1)?, prefixes })", loc=f.loc)
-        else:
-            ctx.bad(rule, key, "constructor result is not {level = len-1 (u16), prefixes = the argument}: %s" % [fmt(a.expr)[:160] for a in acc], loc=f.loc)
-    except Skip:
-        pass
-    ctx.floor(rule, 9)
+    constructor_rules(ctx, "R-C20.G.constructor")
 
     rule = "R-C20.W.literal"
     sites = []
